@@ -1620,6 +1620,81 @@ class Normaliser:
                             else:
                                 setattr(n, f, new)
 
+    def split_tuple_accumulators(self, node):
+        """S = [] ; .. S.append((e0, e1)) .. ; a, b = np.array(S).T      (a list of k-tuples read back column by column)
+        is read as k parallel accumulators: S__0 = np.append(S__0, e0) .. ; a = S__0 ; b = S__1 ; len(S) is S__0.size.
+        Applied when every use of S is one of these forms."""
+        own = list(walk_shallow(node))
+        inits = {}
+        for n in own:
+            if isinstance(n, ast.Assign) and len(n.targets) == 1 and isinstance(n.targets[0], ast.Name) and isinstance(n.value, ast.List) and not n.value.elts:
+                inits.setdefault(n.targets[0].id, []).append(n)
+        for S, ini in inits.items():
+            if len(ini) != 1:
+                continue
+            uses = [x for x in own if isinstance(x, ast.Name) and x.id == S and x is not ini[0].targets[0]]
+            appends, lens, cols = [], [], []
+            ok = True
+            for u in uses:
+                par = getattr(u, '_parent', None)
+                gp = getattr(par, '_parent', None)
+                if isinstance(par, ast.Attribute) and par.attr == 'append' and isinstance(gp, ast.Call) and len(gp.args) == 1 \
+                        and isinstance(gp.args[0], ast.Tuple) and isinstance(getattr(gp, '_parent', None), ast.Expr):
+                    appends.append(gp)
+                elif isinstance(par, ast.Call) and U(par.func) == 'len' and len(par.args) == 1:
+                    lens.append(par)
+                elif isinstance(par, ast.Call) and U(par.func) in ('np.array', 'numpy.array', 'np.asarray') and len(par.args) == 1 and not par.keywords \
+                        and isinstance(gp, ast.Attribute) and gp.attr == 'T' and isinstance(getattr(gp, '_parent', None), ast.Assign) \
+                        and gp._parent.value is gp and len(gp._parent.targets) == 1 and isinstance(gp._parent.targets[0], ast.Tuple) \
+                        and all(isinstance(e_, ast.Name) for e_ in gp._parent.targets[0].elts):
+                    cols.append(gp._parent)
+                else:
+                    ok = False
+            ks = {len(a.args[0].elts) for a in appends}
+            if not ok or not appends or len(cols) != 1 or len(ks) != 1 or len(cols[0].targets[0].elts) != ks.pop():
+                continue
+            k = len(cols[0].targets[0].elts)
+            names = ['%s__c%d' % (S, j) for j in range(k)]
+
+            def rewrite(block):
+                out = []
+                for st in block:
+                    if st is ini[0]:
+                        for nm in names:
+                            out.append(ast.copy_location(ast.Assign(targets=[ast.Name(id=nm, ctx=ast.Store())],
+                                       value=ast.Call(func=ast.Attribute(value=ast.Name(id='np', ctx=ast.Load()), attr='array', ctx=ast.Load()),
+                                                      args=[ast.List(elts=[], ctx=ast.Load())], keywords=[])), st))
+                        continue
+                    if isinstance(st, ast.Expr) and st.value in appends:
+                        for nm, e_ in zip(names, st.value.args[0].elts):
+                            out.append(ast.copy_location(ast.Assign(targets=[ast.Name(id=nm, ctx=ast.Store())],
+                                       value=ast.Call(func=ast.Attribute(value=ast.Name(id='np', ctx=ast.Load()), attr='append', ctx=ast.Load()),
+                                                      args=[ast.Name(id=nm, ctx=ast.Load()), e_], keywords=[])), st))
+                        continue
+                    if st is cols[0]:
+                        for t_, nm in zip(st.targets[0].elts, names):
+                            out.append(ast.copy_location(ast.Assign(targets=[ast.Name(id=t_.id, ctx=ast.Store())], value=ast.Name(id=nm, ctx=ast.Load())), st))
+                        continue
+                    for f in ('body', 'orelse', 'finalbody'):
+                        sub = getattr(st, f, None)
+                        if isinstance(sub, list) and sub and isinstance(sub[0], ast.stmt):
+                            setattr(st, f, rewrite(sub))
+                    out.append(st)
+                return out
+            node.body = rewrite(node.body)
+            for l_ in lens:
+                new = ast.Attribute(value=ast.Name(id=names[0], ctx=ast.Load()), attr='size', ctx=ast.Load())
+                par = l_._parent
+                for f, v in ast.iter_fields(par):
+                    if v is l_:
+                        setattr(par, f, new)
+                    elif isinstance(v, list) and l_ in v:
+                        v[v.index(l_)] = new
+            ast.fix_missing_locations(node)
+            for n_ in ast.walk(node):
+                for ch_ in ast.iter_child_nodes(n_):
+                    ch_._parent = n_
+
     def inline_deferred_scatter(self, node):
         """I, V = [], [] ; loop: .. I.append(i); V.append(v) .. ; E = np.zeros(N); np.add.at(E, I, V)
         is the accumulation `E[i] += v` done inside the loop (numpy.add.at sums repeated positions, in order): read that way when the two
@@ -1798,6 +1873,7 @@ class Normaliser:
         self.one_shot_iterators(node)
         self.fuse_pipelines(node)
         self.inline_deferred_scatter(node)
+        self.split_tuple_accumulators(node)
         self.dememoise(node)
         node.body = self.block(node.body, {}, (self.fi.qualname,))
         self.dememoise(node)          # memo tables that came in with inlined helpers
